@@ -16,7 +16,8 @@ META = {
              "~e ~g ~c (not provided by this library: the model and the implementation both reject them as unknown directives). "
              "Observed and mirrored, not flagged: ~0f prints one fractional digit \"0\" (documentation says N digits); ~+ without N is ~0+. "
              "~NL is an impl-mirror (lines of N characters including the sign, continuation \"_\\n\"). No axioms."),
-    "technique": ("Coq proof (radix_roundtrip, Nd_value, D_grouping, column_width, tilde_star_equiv, nd_impl_eq_doc) over a reference model "
+    "technique": ("Coq proof (radix_roundtrip, Nd_value, D_ungroup, D_groups_of_three, column_width, right_left_align, tilde_star_equiv, nd_impl_eq_doc, "
+                  "unknown_directive_error_partial) over a reference model "
                   "(documented text) with impl-mirror parser/columns + differential correspondence evaluated in Coq"),
     "design_ref": "DESIGN.md section 8, C36",
     "coq_targets": ["C36/Props.vo"],
@@ -384,7 +385,7 @@ def defect_classes(pieces):
         if c in ("d", "D", "U") and p.get("z") is not None and p["z"] < 0 and p.get("n"):
             nd = len(str(abs(p["z"])))
             if nd <= p["n"]:
-                cl.append("Nd-negative-sign-after-point")
+                cl.append("Nd-negative-few-digits-sign-misplaced")
             elif c in "DU" and (nd - p["n"]) % 3 == 0:
                 cl.append("ND-negative-leading-separator")
         elif c in ("D", "U") and p.get("z") is not None and p["z"] < 0 and not p.get("n"):
@@ -397,11 +398,42 @@ def letters(pieces):
     return "".join(sorted(set(p["letter"] for p in pieces if p.get("letter"))))
 
 
+def show_specs(ctx, coq_cases):
+    """the model's results for a few cases, as text (one coqc call)"""
+    if not coq_cases:
+        return []
+    out = core.coq_eval_show(ctx.prop, IMPORTS, "[%s]" % "; ".join("format_ %s" % c for c in coq_cases))
+    m = out.find("= [")
+    if m < 0:
+        return [out[:300]] * len(coq_cases)
+    body = out[m + 3:]
+    res, depth, cur = [], 0, []
+    for ch in body:
+        if ch == "[": depth += 1
+        if ch == "]":
+            depth -= 1
+            if depth < 0: break
+        if ch == ";" and depth == 0:
+            res.append("".join(cur).strip()); cur = []
+        else:
+            cur.append(ch)
+    res.append("".join(cur).strip())
+    def pretty(t):
+        if t.startswith("Some"):
+            try:
+                cs = [int(x) for x in t[t.index("[") + 1:t.rindex("]")].replace(";", " ").split()]
+                return "Some " + json.dumps("".join(chr(c) for c in cs), ensure_ascii=False)
+            except Exception:   # noqa
+                return t[:300]
+        return "None (error)" if t.startswith("None") else t[:300]
+    return [pretty(t) for t in res]
+
+
 def run(ctx):
     rng = ctx.rng
     pool = int_pool(rng)
-    n_valid = ctx.scale(6000, 150000)
-    n_mal = ctx.scale(1600, 40000)
+    n_valid = ctx.scale(2400, 100000)
+    n_mal = ctx.scale(700, 30000)
     cases, seen = [], set()
     dist = {"valid": 0, "malformed": {}, "directives": {}, "n_directives": {}, "star": 0, "column_groups": 0, "negative_int_args": 0}
 
@@ -491,13 +523,15 @@ def run(ctx):
                 key = "unexplained:" + letters(ps)
             q = "phrase(format_(%s, [%s]), Cs)." % (prolog_string(c["fs"]), ",".join(arg_prolog(a) for a in c["args"]))
             by_key.setdefault(key, []).append((len(q), q, path, o, c, what))
-        shown = 0
+        chosen = []
         for key in sorted(by_key):
-            for (_, q, path, o, c, what) in sorted(by_key[key], key=lambda t: t[:2])[:2]:
-                shown += 1
-                spec = core.coq_eval_show(ctx.prop, IMPORTS, "format_ %s" % c["coq"]) if shown <= 16 else "(not shown)"
-                failures.append({"key": key, "what": what, "input": q, "path": path, "impl": o[1], "spec": spec[:600],
-                                 "count_in_run": len(by_key[key]), "property_fails": True})
+            for t in sorted(by_key[key], key=lambda t: t[:2])[:2]:
+                chosen.append((key, t))
+        specs = show_specs(ctx, [t[4]["coq"] for (_, t) in chosen[:24]])
+        for k, (key, (_, q, path, o, c, what)) in enumerate(chosen):
+            failures.append({"key": key, "what": what, "input": q, "path": path, "impl": o[1],
+                             "spec": specs[k] if k < len(specs) else "(not shown)",
+                             "count_in_run": len(by_key[key]), "property_fails": True})
     samples = []
     for c, (o1, o2) in list(zip(cases, impl))[:: max(1, len(cases) // 10)][:10]:
         samples.append({"query": "phrase(format_(%s, [%s]), Cs)." % (prolog_string(c["fs"]), ",".join(arg_prolog(a) for a in c["args"])),
